@@ -23,7 +23,7 @@ static void setup(Runner &r, const Tier &t) {
     g_fs.clear(); g_cases.clear();
     for (auto &sf : shipped_fonts()) { if (std::string(sf.file) == "tiny.ttf") continue; FontSet f; f.path = font_path(sf.file); f.texts = corpus_items(sf.corpus, (t.thorough || std::string(sf.file).find("Awami") != std::string::npos) ? 0 : 60, true);  /* collision fonts: whole corpus (exclusion glyphs, kerning are reached by few lines) */ f.texts.push_back(""); f.texts.push_back("a"); g_fs.push_back(f); }
     static const uint32_t alpha[9] = { 0x61, 0x62, 0x63, 0x64, 0x65, 0x66, 0x20, 0x301, 0x300 };
-    for (const char *g : { "s_full", "s_full_z", "s_full_nosub", "s_full_noglyf", "s_full_extra", "s_full_dense", "s_full_cmapedge", "s_full_pb", "s_full_unsorted", "s_full_bidi", "s_full_rtl_bidi", "s_full_v3", "s_full_v4", "s_full_rtl", "s_min", "feat_40_mixed" }) {
+    for (const char *g : { "s_full", "s_full_z", "s_full_nosub", "s_full_noglyf", "s_full_extra", "s_full_dense", "s_full_cmapedge", "s_full_c12bmp", "s_full_excl", "s_full_pb", "s_full_unsorted", "s_full_bidi", "s_full_rtl_bidi", "s_full_v3", "s_full_v4", "s_full_rtl", "s_min", "feat_40_mixed" }) {
         FontSet f; f.path = gen_dir() + "/" + g + ".ttf"; int maxlen = t.thorough ? 3 : 2;
         for (int L = 0; L <= maxlen; ++L) { int n = 1; for (int k = 0; k < L; ++k) n *= 9; for (int v = 0; v < n; ++v) { std::vector<uint8_t> b; int x = v; for (int k = 0; k < L; ++k) { ref::enc8(alpha[x % 9], b); x /= 9; } f.texts.push_back(std::string(b.begin(), b.end())); } }
         f.texts.push_back("a\xCC\x81\xCC\x80 b\xCC\x80"); f.texts.push_back("cab\xF0\x90\x80\x80"); f.texts.push_back("a\x01\x02 \xEF\xBF\xBC\xEF\xBF\xBD" "b");
